@@ -10,6 +10,8 @@ Byte strings travel as lowercase hex (`-` = empty); lists are comma separated (`
   parent; ContractSigHash of every formation / revision; `RenewalSigHash:ContractSigHash(new)`
   of every renewal (`x` for other resolutions); AttestationSigHash of every attestation)
 * `sem-v2 <txn hex>` → the semantic encoding, hex
+* `cmp-v2 <txn hex> <txn hex>` → `strip=<0|1> code=<0|1> kinds=<0|1> sem=<0|1>`: equality of the specification
+  `strip`, of what the code binds (`stripCode`), of the resolution kinds, of the semantic encodings
 * `ids-v1 <txn hex>` → `ok wf=<0|1> txid=… sc=… sf=… fc=… sfclaim=… fcout=<valid ids|missed ids;…>`
 * `sighash-v1 <prefix hex> <txn hex>` → `ok <h per signature>` (`panic` where Go would panic)
 * `block-id <parentID> <nonce> <timestamp> <commitment>` → the block id
@@ -57,6 +59,18 @@ def semV2 (args : List String) : String :=
     match hexArg hex >>= decodeV2Txn with
     | none => "bad-txn"
     | some t => hexOut (semEncode t)
+  | _ => "bad-op"
+
+/-- `cmp-v2 <txn hex> <txn hex>`: is the specification `strip` equal, is what the code binds
+(`stripCode`) equal, are the resolution kinds equal, are the semantic encodings equal -/
+def cmpV2 (args : List String) : String :=
+  match args with
+  | [h1, h2] =>
+    match hexArg h1 >>= decodeV2Txn, hexArg h2 >>= decodeV2Txn with
+    | some t, some t' =>
+      let b (x : Bool) := if x then "1" else "0"
+      s!"strip={b (decide (strip t = strip t'))} code={b (decide (stripCode codeBindsClaimAddress t = stripCode codeBindsClaimAddress t'))} kinds={b (decide (t.kinds = t'.kinds))} sem={b (decide (semEncode t = semEncode t'))}"
+    | _, _ => "bad-txn"
   | _ => "bad-op"
 
 def fcOuts (fcid : BL) (fc : Val) : String :=
@@ -143,7 +157,7 @@ def commitment (args : List String) : String :=
 end IdsD
 
 def idsOps : List (String × (List String → String)) :=
-  [("ids-v2", IdsD.idsV2), ("sem-v2", IdsD.semV2), ("ids-v1", IdsD.idsV1), ("sighash-v1", IdsD.sighashV1),
+  [("ids-v2", IdsD.idsV2), ("sem-v2", IdsD.semV2), ("cmp-v2", IdsD.cmpV2), ("ids-v1", IdsD.idsV1), ("sighash-v1", IdsD.sighashV1),
    ("block-id", IdsD.blockId), ("block-outs", IdsD.blockOuts), ("merkle-v1", IdsD.merkleV1), ("commitment", IdsD.commitment)]
 
 end Sia.Driver
